@@ -225,7 +225,9 @@ def _str_to_set_of_notices(value: Any) -> Any:
 def _str_to_set_of_expr(value: Any) -> set[Expression]:
     value = _str_to_set(value)
     result = set()
-    for expression in value:
+    # In a fixed order: of two expressions that are equal but for the order of
+    # their operands, the set keeps the one added first.
+    for expression in sorted(value, key=str):
         try:
             result.add(_parse_expression(expression))
         # Degenerate input such as '()' or a non-string makes the expression
